@@ -41,7 +41,7 @@ def gen(ctx):
         ctx.exhaustive = True
     vs += [list(v) for v in small]
     for _ in range(ctx.n(400, 6000)):
-        n = ctx.rng.randint(1, 8)
+        n = ctx.rng.randint(1, 8) if ctx.rng.random() < 0.93 else ctx.rng.randint(9, 40)
         den = ctx.rng.choice([5, 11, 21, 101, 1001])
         mode = ctx.rng.random()
         if mode < 0.5:
